@@ -85,7 +85,10 @@ def answer (st : St) (I : Info) (s : Bp.St) (l : Land) (k : Nat) : St × String 
         | _ => hookOf I pc
       fin st s false ("done " ++ hex pc ++ tail ++ " h=" ++ h)
 
-def stepCmd (st : St) (cmd : String) (obsOut : Bool) : St × String :=
+/-- a place / frame that equals no real one: the start of a `step` issued outside the executable -/
+def nowhere : Place := { addr := 0, path := 2 ^ 62, line := 0, stmt := false }
+
+def stepCmd (st : St) (cmd : String) (obsOut : Bool) (obsK : Nat := 0) : St × String :=
   let s0 := { st.s with pokes := [] }
   if s0.status != Status.inProgress then (st, "err")
   else
@@ -103,15 +106,28 @@ def stepCmd (st : St) (cmd : String) (obsOut : Bool) : St × String :=
         else if (at' st.τ s1.idx).gap > 0 then fin st s1 true ("done out p=" ++ showPokes s1.pokes ++ " t=- k=1 h=-")
         else answer st I s1 { idx := i + 1, why := .done } 1
     | "step" =>
-      let l := stepIn I st.τ i
-      let k := l - i
-      answer st I (stepN k s0) { idx := l, why := if st.τ.size ≤ l then .exit else .done } k
+      -- issued outside the executable: the start place and frame are libc's; the first candidate is `τ[i]` itself
+      let l := if st.inGap then stepInLoop I st.τ nowhere (2 ^ 62) (st.τ.size + 1 - i) (i - 1) else stepIn I st.τ i
+      if obsOut then
+        -- the implementation stopped OUTSIDE the executable after `obsK` instruction steps inside it (libc has line
+        -- information of its own on this machine: environment).  Consistent iff that point lies in a gap of the trace
+        -- before the model's own landing.
+        let j := i + obsK
+        if (j < l || (j == l && l == st.τ.size)) && (j == st.τ.size || (at' st.τ j).gap > 0 || (obsK == 0 && st.inGap)) then
+          let s1 := stepN obsK s0
+          fin st s1 true ("done out p=" ++ showPokes s1.pokes ++ " t=- k=" ++ toString obsK ++ " h=-")
+        else (st, "model-split out-after-" ++ toString obsK ++ "-but-lands-" ++ toString (l - i))
+      else
+        let k := l - i
+        answer st I (stepN k s0) { idx := l, why := if st.τ.size ≤ l then .exit else .done } k
     | "next" =>
+      if st.inGap then (st, "skipped-outside") else
       let l := stepOver I st.τ U i
       let s1 := stepN l.pre s0
       let (s2, _) := tempRun s1 l.temps l.tail
       answer st I s2 l l.tail
     | "finish" =>
+      if st.inGap then (st, "skipped-outside") else
       let l := stepOut st.τ U i
       match l.why with
       | .out =>
@@ -146,11 +162,20 @@ def step (st : St) : List String → St × String
     else match toks with
     | [c] =>
       if c == "stepi" || c == "step" || c == "next" || c == "finish" then stepCmd st c false
+      else if c == "continue" && st.inGap && st.s.status == Status.inProgress then
+        -- resumed outside the executable: nothing at `τ[idx]` has been executed yet, no breakpoint to step over
+        let s0 := { st.s with pokes := [] }
+        let (s1, o) := traceLoopT (fuelFor s0) s0
+        ({ st with s := s1, inGap := false }, showOut o s1)
       else
         let (c2, out) := Driver.C02.stepLive { s := st.s } toks
         ({ st with s := c2.s, inGap := false }, out)
     | [c, "out"] =>
       if c == "stepi" || c == "finish" || c == "next" then stepCmd st c true else (st, "bad-op")
+    | ["step", "out", k] =>
+      match decNat? k with
+      | some k => stepCmd st "step" true k
+      | none => (st, "bad-op")
     | _ =>
       let (c2, out) := Driver.C02.stepLive { s := st.s } toks
       ({ st with s := c2.s, inGap := false }, out)
